@@ -107,6 +107,9 @@ func (t *fnTr) setVar(key interface{}, vr *fnVar, v fnVal) {
 		vr.alias = al
 		vr.stale = false
 	}
+	if ty.k == fkPtr {
+		vr.fresh = v.fresh
+	}
 	if ty.k == fkNum {
 		vr.cells = v.cells
 		vr.guard, vr.okNum = nil, true
@@ -165,6 +168,9 @@ func (t *fnTr) stmt(s ast.Stmt, k func() string) string {
 				}
 			}
 		}
+		if len(x.Results) == 0 && len(t.namedRes) > 0 {
+			return t.bareReturn(s)
+		}
 		if len(x.Results) != len(t.results) {
 			t.fail(s, "return with %d values for %d results", len(x.Results), len(t.results))
 		}
@@ -188,6 +194,9 @@ func (t *fnTr) stmt(s ast.Stmt, k func() string) string {
 		return "bind (" + r.s + ") (fun " + tmp + " => " + t.ret(t.full(tmp)) + ")"
 	case *ast.AssignStmt:
 		if len(x.Lhs) > 1 && len(x.Rhs) == 1 {
+			if out, ok := t.quoteFee(x, k); ok {
+				return out
+			}
 			return t.assignCall(x, k)
 		}
 		if len(x.Lhs) > 1 && len(x.Lhs) == len(x.Rhs) && x.Tok == token.DEFINE {
@@ -195,6 +204,9 @@ func (t *fnTr) stmt(s ast.Stmt, k func() string) string {
 		}
 		if len(x.Lhs) != 1 || len(x.Rhs) != 1 {
 			t.fail(s, "assignment with several operands")
+		}
+		if out, ok := t.fieldAssign(x, k); ok {
+			return out
 		}
 		if _, isSel := x.Lhs[0].(*ast.SelectorExpr); isSel && x.Tok == token.ASSIGN {
 			if p, ok := t.fieldPath(x.Lhs[0]); ok {
@@ -600,7 +612,7 @@ func (t *fnTr) rangeStmt(x *ast.RangeStmt, k func() string) string {
 		t.fail(x, "range without := ")
 	}
 	xs := t.expr(x.X)
-	if xs.ty.k != fkBytes && xs.ty.k != fkInts {
+	if xs.ty.k != fkBytes && xs.ty.k != fkInts && xs.ty.k != fkPtrs {
 		t.fail(x, "range over something other than a slice")
 	}
 	state := t.assigned(x.Body)
@@ -636,6 +648,9 @@ func (t *fnTr) rangeOver(x *ast.RangeStmt, xs fnVal, state []interface{}, k func
 		if id.Name != "_" {
 			name := t.objName(t.local(id), id.Name)
 			t.vars[t.local(id)] = &fnVar{name: name, ty: fnType{k: fkInt, ity: xs.ty.ity}}
+			if xs.ty.k == fkPtrs {
+				t.vars[t.local(id)].ty = fnType{k: fkPtr, sname: xs.ty.sname}
+			}
 			if xs.ty.k == fkBytes {
 				rawName = t.temp()
 				intro = "let " + name + " := b2z " + rawName + " in "
@@ -789,12 +804,18 @@ func (t *fnTr) function(fd *ast.FuncDecl) string {
 	var params []string
 	roots := map[string]types.Type{}
 	goIdx := 0
+	nilable := t.nilableParams(fd)
 	addParam := func(id *ast.Ident, idx int) {
 		obj := t.pkg.info.Defs[id]
 		if obj == nil {
 			t.fail(id, "unnamed or unresolved parameter")
 		}
-		if ty, ok := fnClassify(obj.Type()); ok && ty.k != fkErr && ty.k != fkNil {
+		// a parameter named in the declared interface is replaced by those fields; so is a receiver that points to a struct
+		// of package bt (a nil receiver is outside the definitions)
+		if ty, ok := fnClassify(obj.Type()); ok && ty.k != fkErr && ty.k != fkNil && !t.isDeclaredRoot(id.Name) && !(idx == -1 && ty.k == fkPtr) {
+			if nilable[obj] {
+				ty = fnType{k: fkNilBytes}
+			}
 			v := &fnVar{name: t.newName(id.Name), ty: ty}
 			if ty.k == fkNum {
 				v.cells, v.okNum = []int{t.newCell()}, true
@@ -824,13 +845,18 @@ func (t *fnTr) function(fd *ast.FuncDecl) string {
 		}
 	}
 	for _, p := range t.spec.Fields {
-		ty, ok := fnResolvePath(roots, p)
-		if !ok {
-			continue // the declared field is not there (any more): a body that still reads it is refused at the read
-		}
-		cty, ok := fnClassify(ty)
-		if !ok || cty.k == fkErr || cty.k == fkNil {
-			continue
+		var cty fnType
+		if pty, isPseudo := fnPseudoField(roots, p); isPseudo {
+			cty = pty
+		} else {
+			ty, ok := fnResolvePath(roots, p)
+			if !ok {
+				continue // the declared field is not there (any more): a body that still reads it is refused at the read
+			}
+			cty, ok = fnClassify(ty)
+			if !ok || cty.k == fkErr || cty.k == fkNil {
+				continue
+			}
 		}
 		name := "v_" + strings.NewReplacer(".", "_", "*", "deref_").Replace(p)
 		t.names[name[2:]]++
@@ -855,11 +881,9 @@ func (t *fnTr) function(fd *ast.FuncDecl) string {
 		t.args = append(t.args, fnArg{goParam: -2, path: p, ty: cty})
 	}
 	var rts []string
+	namedInit := ""
 	if fd.Type.Results != nil {
 		for _, f := range fd.Type.Results.List {
-			if len(f.Names) != 0 {
-				t.fail(f, "named results")
-			}
 			tv, ok := t.pkg.info.Types[f.Type]
 			if !ok {
 				t.fail(f, "untyped result")
@@ -868,8 +892,17 @@ func (t *fnTr) function(fd *ast.FuncDecl) string {
 			if !ok || ty.k == fkNil {
 				t.fail(f, "result of unsupported type %s", tv.Type)
 			}
-			t.results = append(t.results, ty)
-			rts = append(rts, ty.coq())
+			n := 1
+			if len(f.Names) != 0 {
+				n = len(f.Names)
+				for _, id := range f.Names {
+					namedInit += t.namedResult(id, ty)
+				}
+			}
+			for ; n > 0; n-- {
+				t.results = append(t.results, ty)
+				rts = append(rts, ty.coq())
+			}
 		}
 	}
 	if len(rts) == 0 && len(t.state) == 0 {
@@ -908,7 +941,7 @@ func (t *fnTr) function(fd *ast.FuncDecl) string {
 	if len(body) > 200000 {
 		t.fail(fd, "the translation is too large (%d characters)", len(body))
 	}
-	return "Definition " + t.spec.Coq + " " + strings.Join(params, " ") + " : M " + fnParen(rt) + " :=" + "\n  " + body + "."
+	return "Definition " + t.spec.Coq + " " + strings.Join(params, " ") + " : M " + fnParen(rt) + " :=" + "\n  " + namedInit + body + "."
 }
 
 // full: the value a return statement yields: the current values of the state fields, then the results.
